@@ -198,6 +198,22 @@ def core_check(ctx, lib, keys, counts, pollute, fr, label, as_group=()):
                 ctx.fail('not-the-weighted-sum:CpoR-array', '[%s] CpoR(%r) = %r, element-wise sums of count*group value = %r'
                          % (label, arr, got, want))
                 break
+    # a request relative to the elements in between leaves the plain values as they were (the estimate keeps no memory of it)
+    if all(have(g, 'SoR') for g in groups) and Ts:
+        try:
+            s_before = quiet(est.get_SoR, Ts[0])
+            try:
+                quiet(est.get_SoR, Ts[0], True)
+                quiet(est.get_GoRT, Ts[0], True)
+            except Exception:
+                ctx.event('elemental-request-not-possible-here')
+            s_after = (quiet(est.get_SoR, Ts[0]), quiet(est.get_SoR, Ts[0], False))
+            ctx.count()
+            if s_after[0] != s_before or s_after[1] != s_before:
+                ctx.fail('value-changed-by-an-earlier-elemental-request', '[%s] SoR(%r) = %r, after a request with S_elements=True: %r (and with S_elements=False %r)'
+                         % (label, Ts[0], s_before, s_after[0], s_after[1]))
+        except m['IDE']:
+            pass
     # G = H - S
     if all(have(g, 'GoRT') for g in groups):
         for T in Ts[:3]:
